@@ -55,10 +55,20 @@ def _make_reg(r, idx):
     raise ValueError(kind)
 
 
+def _forget_names():
+    """migen's tracer keeps every object that ever created a Signal in a global per-class list and searches
+    it linearly for each new Signal (naming indices only): thousands of constructions in one process become
+    quadratic and are never freed.  Start every construction with empty naming tables."""
+    import migen.fhdl.tracer as tr
+    tr.classname_to_objs.clear()
+    tr.name_to_idx.clear()
+
+
 def build(spec):
     """real construction: objects -> CSRBankArray -> interconnect.  Returns (top, masters, array, regs)
     where regs = [(bank index, reg spec, real object)] in creation order.  Raises whatever the
     repository code raises (e.g. ValueError on a location conflict)."""
+    _forget_names()
     w = spec["w"]
     pb = log2_int(spec["paging"] // 4)
     aw = pb + log2_int(spec["npages"])
@@ -189,10 +199,12 @@ def tla_cfg(spec):
         rec["built"] = 1
         rec["error"] = ""
         rec["map"] = layout_of(array, robjs)
+        top, masters, array, robjs = build(spec)          # reproducibility: a second, independent construction
+        rec["map2"] = layout_of(array, robjs)
     except Exception as ex:      # noqa: the contract decides whether a rejection is legitimate
         rec["built"] = 0
         rec["error"] = type(ex).__name__
-        rec["map"] = [[] for _ in spec["banks"]]
+        rec["map"] = rec["map2"] = [[] for _ in spec["banks"]]
     return rec
 
 
@@ -408,6 +420,7 @@ class _MemObj(Module, AutoCSR):
 
 
 def build_sram(spec):
+    _forget_names()
     w = spec["w"]
     pb = log2_int(spec["paging"] // 4)
     aw = pb + log2_int(spec["npages"])
